@@ -899,7 +899,8 @@ class Text(JupyterMixin):
                 line for line in self.divide(flatten_spans()) if line.plain != separator
             )
 
-        if not allow_blank and text.endswith(separator):
+        if not allow_blank and lines and not lines[-1].plain:
+            # the text ended with a separator (checked on the pieces: "aaa" ends with "aa" but splits in to "" and "a")
             lines.pop()
 
         return lines
